@@ -254,3 +254,18 @@ def short_circuits(pm, comp):
     """Is the comprehension consumed by something that may stop early (any / all / next / in)?"""
     par = pm.get(id(comp))
     return isinstance(par, ast.Call) and isinstance(par.func, ast.Name) and par.func.id in ('any', 'all', 'next')
+
+
+def key_removals(node, field):
+    """Every removal of a key from the mapping ``<x>.<field>``: ``.pop(k)``, ``.__delitem__(k)`` and ``del <x>.<field>[k]``
+    -> list of (node, key expression)."""
+    out = []
+    for n in ast.walk(node):
+        if isinstance(n, ast.Call) and isinstance(n.func, ast.Attribute) and n.func.attr in ('pop', '__delitem__') and n.args \
+                and isinstance(n.func.value, ast.Attribute) and n.func.value.attr == field:
+            out.append((n, n.args[0]))
+        elif isinstance(n, ast.Delete):
+            for t in n.targets:
+                if isinstance(t, ast.Subscript) and isinstance(t.value, ast.Attribute) and t.value.attr == field:
+                    out.append((n, t.slice))
+    return out
